@@ -241,9 +241,30 @@ def h_extend(h, k, pmin, pmax, adaptive):
         for c in range(k):
             h.prove_eq(f"new row {i} holds F(x) (component {c})", V[i, c] if k > 1 else V[i],
                        Fs[c](pts[i]))
+    for i in range(n):
+        for c in range(k):
+            h.prove_eq(f"old row {i} keeps its value (component {c})", V[old0 + i, c] if k > 1 else V[old0 + i],
+                       vals[i, c] if k > 1 else vals[i])
+    _same_table(h, f, "after extension")
     if adaptive:
         h.prove("pending adaptive data reset", Cond(b=f._directEvaluateCount == 0
                                                     and len(f._directlyEvaluatedAt) == 0))
+
+
+def _same_table(h, f, when):
+    """first and second derivative splines are those of the CURRENT table"""
+    if not h.symbolic:
+        d = f._interpolatedDerivatives
+        xs = np.asarray(f._interpolationPoints, dtype=float)
+        xm = 0.5 * (xs[0] + xs[-1])
+        a = np.asarray(f._interpolatedFunction.derivative(1)(xm))
+        b = np.asarray(d[0](xm))
+        h.prove(f"derivative splines belong to the current table ({when})", Cond(b=bool(np.allclose(a, b, rtol=1e-12, atol=1e-12))))
+        return
+    cur = f._interpolatedFunction.id
+    h.prove(f"derivative splines belong to the current table ({when})", Cond(
+        b=all(getattr(d, "id", None) == cur for d in f._interpolatedDerivatives)
+        and [d.order for d in f._interpolatedDerivatives] == [1, 2]))
 
 
 def h_badpoints(h, k, n, pattern):
@@ -312,6 +333,7 @@ def h_adaptive(h, k):
     inc = [lt(pts[i], pts[i + 1]) for i in range(m - 1)]
     h.prove("abscissae strictly increasing after adaptive update", AND(*inc))
     h.prove("pending data reset", Cond(b=f._directEvaluateCount == 0))
+    _same_table(h, f, "after an adaptive update")
     h.prove("evaluated points now inside the table",
             AND(le(f.interpolationRangeMin(), a), ge(f.interpolationRangeMax(), b)))
     # a later call inside the new range is answered by the (new) spline
@@ -333,6 +355,7 @@ def h_modechange(h, k, seq):
     for lower, upper in seq:
         f.setExtrapolationType(MODES[lower], MODES[upper])
         h.prove("table kept by mode change", Cond(b=f.numPoints() == 3))
+        _same_table(h, f, "after a mode change")
     lower, upper = MODES[seq[-1][0]], MODES[seq[-1][1]]
     e = _expected(h, f, Fs, x, k, lower, upper, xs[0], xs[-1])
     try:
@@ -345,6 +368,27 @@ def h_modechange(h, k, seq):
         for c in range(k):
             h.prove_eq(f"value follows the current modes (component {c})", r[c] if k > 1 else r[()],
                        core.unbox(np.asarray(e[1][c])))
+
+
+def h_rebuild(h, k):
+    """a second table on the same object (re-trace / new range) replaces value AND derivative splines"""
+    Fn, Fs = make_function(h, k)
+    f = Fn(bUseAdaptiveInterpolation=False, returnValueCount=k)
+    xs, vals = make_table(h, f, 3, k)
+    xs2 = [h.real(f"u{i}", -9, 9, default=-3.0 + 2 * i) for i in range(4)]
+    for i in range(3):
+        h.assume(lt(xs2[i], xs2[i + 1]))
+    vals2 = h.reals("y2", (4, k) if k > 1 else (4,), -10, 10)
+    f.newInterpolationTableFromValues(np.array(xs2, dtype=object if h.symbolic else float), vals2)
+    h.prove("second table installed", Cond(b=f.numPoints() == 4))
+    _same_table(h, f, "after a second table")
+    x = h.real("x", -9, 9, default=0.1)
+    h.assume(AND(ge(x, xs2[0]), le(x, xs2[-1])))
+    d = np.asarray(f.derivative(np.asarray(x), order=1))
+    want = np.asarray(f._interpolatedFunction.derivative(1)(np.asarray(x)))
+    for c in range(k):
+        h.prove_eq(f"derivative() differentiates the current spline (component {c})", d[c] if k > 1 else d[()],
+                   want[c] if k > 1 else want[()])
 
 
 def h_file(h, k):
@@ -412,6 +456,8 @@ HARNESSES = [
     HarnessDef("extend", h_extend, _XQ, _XT, max_paths=60, timeout_s=30,
                encodes=[InterpolatableFunction.extendInterpolationTable,
                         InterpolatableFunction.newInterpolationTableFromValues], random_validation=2),
+    HarnessDef("table-rebuild", h_rebuild, [dict(k=1), dict(k=2)], max_paths=40, timeout_s=30,
+               encodes=[InterpolatableFunction._interpolate, InterpolatableFunction.derivative], random_validation=1),
     HarnessDef("drop-bad-points", h_badpoints, _BQ, _BT, max_paths=20, timeout_s=30,
                encodes=[InterpolatableFunction._dropBadPoints, InterpolatableFunction._interpolate],
                random_validation=1),
